@@ -12,7 +12,10 @@ use core::marker::PhantomData;
 use core::mem::{ManuallyDrop, MaybeUninit};
 use core::ops::Deref;
 use core::ptr::{self, NonNull};
+#[cfg(not(triomphe_verif))]
 use core::sync::atomic;
+#[cfg(triomphe_verif)]
+use crate::verif_hooks::atomic;
 use core::sync::atomic::Ordering::{Acquire, Relaxed, Release};
 
 #[cfg(feature = "serde")]
